@@ -1,0 +1,36 @@
+// SPDX-License-Identifier: Apache-2.0
+// Copyright Authors of Cilium
+
+//go:build verif
+
+// Package simhook provides scheduling hook points for deterministic
+// simulation. With the "verif" build tag the hooks call the functions
+// installed by a simulator; when none is installed they do nothing.
+package simhook
+
+var (
+	YieldFn   func(point string)
+	AcquireFn func(lock any, point string)
+	ReleaseFn func(lock any, point string)
+)
+
+// Yield marks a point at which a simulator may switch to another task.
+func Yield(point string) {
+	if f := YieldFn; f != nil {
+		f(point)
+	}
+}
+
+// Acquire is called right before a lock is taken.
+func Acquire(lock any, point string) {
+	if f := AcquireFn; f != nil {
+		f(lock, point)
+	}
+}
+
+// Release is called right after a lock has been released.
+func Release(lock any, point string) {
+	if f := ReleaseFn; f != nil {
+		f(lock, point)
+	}
+}
